@@ -47,13 +47,19 @@ def run(W, chk):
         A = W.run(FM, "execute", vp)
         lab = vp[-1]
         ws = wh_saves(A)
-        chk.expect(len(ws) == 2, "AGREE-twin-update", lab, "two snapshot writes at current+1 (contract, user)", "%d snapshot writes at current+1" % len(ws), A.entry)
-        if len(ws) != 2:
+        # two write sites (contract, user) or one site executed for both addresses (a loop over [contract, user])
+        chk.expect(len(ws) in (1, 2), "AGREE-twin-update", lab, "snapshot writes at current+1 for the contract and for the user", "%d snapshot writes at current+1" % len(ws), A.entry)
+        if len(ws) not in (1, 2):
             continue
+        if len(ws) == 1:
+            ws = [ws[0], ws[0]]
         k = [e.extra.get("key", EMPTY) for e in ws]
         addr = [all_origins(vfield(x, "0")) for x in k]
         dens = [all_origins(vfield(x, "1")) for x in k]
-        okk = {"env.contract.address"} in addr and user in addr and dens[0] == dens[1] == den
+        if ws[0] is ws[1]:
+            okk = addr[0] == {"env.contract.address"} | user and dens[0] == den
+        else:
+            okk = {"env.contract.address"} in addr and user in addr and dens[0] == dens[1] == den
         chk.expect(okk, "AGREE-twin-update", lab + ".keys", "snapshots at (contract | position owner, position's LP denom, current+1)",
                    "snapshot keys: addresses %s / %s denoms %s / %s" % (sorted(addr[0]), sorted(addr[1]), sorted(dens[0]), sorted(dens[1])), where(ws[0]))
         vm = [opmap(e.extra.get("value", EMPTY), lambda o, ops: "key" not in ops) for e in ws]
